@@ -9,7 +9,7 @@ tree by tools/gen_c08_alphabet.py; 1220 built-in characters + printable ASCII mi
 279 excluded characters are listed there with the reason), which makes the single-character part a
 regression oracle and the string part decide neighbour effects.
 """
-import os, json, unicodedata
+import os, re, json, unicodedata
 from ..shard import rng_for
 from ..util import ddmin_string
 from ..rec import Recorder
@@ -25,8 +25,8 @@ RULE = ('every character of the frozen invertible alphabet alone and in 5 neighb
         'latex2text whitespace policy. Non-trivial = string with >= 2 characters of which >= 1 has a built-in encoding; '
         'distinct = distinct string.')
 EXHAUSTIVE = {'quick': False, 'thorough': False}
-ASSUMPTIONS = ['strings never contain the ASCII ligature pairs (--, ``, \'\', !`, ?`: the specials the tables of pylatexenc define), two adjacent blanks or a '
-               'paragraph break (whitespace layout is not part of the statement)',
+ASSUMPTIONS = ['strings never contain the ASCII ligature pairs (--, ``, \'\', !`, ?`: the specials the tables of pylatexenc define) or a '
+               'paragraph break written with more than two newlines (all such breaks are rendered alike)',
                'the alphabet file is frozen; characters are never re-qualified at run time']
 SCHEMES = ['braces', 'braces-all', 'braces-almost-all', 'braces-after-macro']
 POLICIES = {'default': {}, 'strict': {'strict_latex_spaces': True}}
@@ -65,7 +65,7 @@ def plan(tier, seed):
 def floors(tier):
     return {'evaluations': 10000, 'distinct_nontrivial': 8000, 'round_trips': 80000,
             'histkeys:class_pair': 100, 'histkeys:scheme_policy': 8, 'alphabet_characters_alone': 1300,
-            'ascii_pairs': 8000, 'non_nfc_inputs': 1500}
+            'ascii_pairs': 8000, 'non_nfc_inputs': 1500, 'whitespace_layout_strings': 800}
 
 
 def setup(rec):
@@ -84,10 +84,19 @@ def l2t(pol):
     return _L2T[pol]
 
 
+_WS_RUN = re.compile(r'[ \n\t]+')
+
+
 def admissible(s):
     d = data()
     if any(f in s for f in d['forbidden_sequences']):
         return False
+    # a paragraph break is written with exactly two adjacent newlines: longer breaks (three newlines, newline - blanks -
+    # newline) are all rendered as one break, which is layout, not content
+    for m in _WS_RUN.finditer(s):
+        r = m.group()
+        if r.count('\n') > 2 or (r.count('\n') == 2 and '\n\n' not in r):
+            return False
     if s != s.strip(' \n'):
         return False
     return unicodedata.normalize('NFC', s) == s
@@ -224,6 +233,21 @@ def run_shard(desc, rec):
                         rec.monitor('ascii_pairs')
                     rec.nontrivial(s)
                     check_case({'s': s}, rec)
+        # whitespace layouts: blanks, newlines and paragraph breaks between ASCII and replaced characters
+        inv = [chr(c) for c in d['invertible']]
+        ws = [' ', '  ', '\n', ' \n', '\n ', '\n\n', '\n\n ', ' \n\n', '\n\n  ', '   ', ' \n ']
+        for i in range(desc['triples'] // 4):
+            parts = [rng.choice(asc + inv[:40] + [rng.choice(inv)])]
+            for _ in range(rng.randint(1, 3)):
+                parts.append(rng.choice(ws))
+                parts.append(rng.choice(asc + [rng.choice(inv)]))
+            s = ''.join(parts)
+            if not admissible(s):
+                continue
+            rec.case()
+            rec.monitor('whitespace_layout_strings')
+            rec.nontrivial(s)
+            check_case({'s': s}, rec)
         punct = [c for c in asc if not c.isalnum()]
         for i in range(desc['triples']):
             s = ''.join(rng.choice(punct) for _ in range(rng.randint(3, 4)))
